@@ -1,8 +1,11 @@
 """C09: the loop calls exactly the ready, subscribed channels -- same under epoll and poll.
-proof (Properties_C09.v over C09_Model.v) + correspondence of the extracted model with the real
-EPollPoller / PollPoller / Channel on real descriptors (ASan/UBSan, asserts on) + an independent
-oracle (the property text) evaluated on the implementation's output + a free-running loop scenario
-(blocks instead of spinning)."""
+proof (Properties_C09.v over C09_Model.v: both back-ends of the current tree refine the interest map for
+all histories meeting the Channel API preconditions, dispatch / tie guard / growth guard as functions
+translated from the AST, one EventLoop::loop() iteration, wake-up drain) + correspondence of the extracted
+model with the real EPollPoller / PollPoller / Channel / EventLoop::loop() on real descriptors (ASan/UBSan,
+asserts on) + an independent oracle (the property text) evaluated on the implementation's output + a
+free-running loop scenario (blocks instead of spinning).  Both findings of this property (F-1, F-14) are
+fixed in /repo: there is no known-finding entry, every oracle failure is a VIOLATION."""
 import os, re, sys, glob, itertools, math
 import vlib
 
@@ -1018,19 +1021,24 @@ def run(chk, replay=None):
                        "HUP/ERR report, a filled result array, a rejected precondition, a negated pollfd, a callback issuing Channel API calls, "
                        "a stale call within a batch, a rejected batch or a tied channel without owner; distinct by (op-kind sequence, events, last line)")
     chk.cov["traces_validated_against_impl"] = len(cases) - len(corr_bad)
-    chk.add_obligation("correspondence: extracted C09_Model (ep_step, pp_step at the generated resets_index) == real EPollPoller/PollPoller/"
-                       "Channel after every op (index_, channels_, pollfds_, kernel interest list from /proc, events_ size, active lists, callbacks)",
+    chk.add_obligation("correspondence: extracted C09_Model (ep_step_current, pp_step_current = the models at the generated facts; loop_iter; "
+                       "handle_event) == real EPollPoller/PollPoller/Channel after every op (index_, channels_, pollfds_, kernel interest list from "
+                       "/proc, events_ size, active lists, callbacks) and == one real EventLoop::loop() iteration with scripted callbacks on LOOP",
                        not corr_bad)
-    chk.add_obligation("oracle: exactly the ready subscribed channels are reported and called, both back-ends the same, bounded epoll growth, "
-                       "loop blocks when idle (on the implementation's own outputs)", not oracle_bad)
-    chk.add_obligation("generated facts: PollPoller_remove_resets_index / EPollPoller_grow_factor regenerated from the AST", grow != "?")
+    chk.add_obligation("oracle: exactly the ready subscribed channels are reported and called (snapshot semantics inside a batch, tie guard), both "
+                       "back-ends the same, bounded epoll growth, loop blocks when idle (on the implementation's own outputs)", not oracle_bad)
+    chk.add_obligation("generated facts: PollPoller_remove_resets_index / EPollPoller_add_skips_empty_interest / PollPoller_new_entry_negates_empty / "
+                       "EPollPoller_grow_factor regenerated from the AST", grow != "?" and gen_defined("EPollPoller_add_skips_empty_interest")
+                       and gen_defined("PollPoller_new_entry_negates_empty"))
     chk.add_obligation("generated functions and facts translated from the AST (growth guard + resize argument, handleEventWithGuard tests, tie_ guard, "
                        "snapshot dispatch, wake-up/timer descriptor reads): none missing", all(facts.values()))
     chk.trusted("extraction: ExtrOcamlBasic only; extract/util.ml + extract/C09_driver.ml (OCaml 4.13.1)",
                 "harness/C09_driver.cc (#define private/protected public; real eventfd/pipe/socketpair descriptors; kernel interest list read "
-                "from /proc/self/fdinfo; Channel API preconditions tested on the driver's own bookkeeping)",
+                "from /proc/self/fdinfo; Channel API preconditions tested on the driver's own bookkeeping; --wrap=epoll_wait,poll forces a zero "
+                "time-out inside LOOP; the epoll dispatch order of a LOOP is handed to the model runner, which validates and replays it)",
                 "translator lib/gen_consts.py + lib/gen_C09.py (clang 14 JSON AST): kInitEventListSize, kNew/kAdded/kDeleted, "
-                "kNone/kRead/kWriteEvent, removeChannel resets index?, growth factor",
+                "kNone/kRead/kWriteEvent, removeChannel resets index?, ADD skipped for an empty interest?, new pollfd negated for an empty interest?, "
+                "growth factor + growth guard/new size, handleEventWithGuard tests, tie_ guard, snapshot dispatch, eventfd/timerfd reads",
                 "Linux poll(2)/epoll(7) semantics (level-triggered, revents within events|ERR|HUP|NVAL): observed, not proved; "
                 "python readiness predictor for eventfd/pipe/unix socketpair (checked against raw poll(2) on every POLL)",
                 "std::vector / std::map themselves")
